@@ -39,6 +39,17 @@ func c17Has(list []string, pred func(string) bool) bool {
 	return false
 }
 
+func c17HasContinue(n ast.Node) bool {
+	found := false
+	ast.Inspect(n, func(x ast.Node) bool {
+		if b, ok := x.(*ast.BranchStmt); ok && b.Tok == token.CONTINUE {
+			found = true
+		}
+		return !found
+	})
+	return found
+}
+
 func c17UsesIdent(n ast.Node, name string) bool {
 	found := false
 	ast.Inspect(n, func(x ast.Node) bool {
@@ -726,9 +737,12 @@ func factsC17(r *Repo) []Fact {
 			c17Has(as, func(s string) bool { return s == "index,ok:=tuple.indexes[toolCall.Function.Name]" }) &&
 			c17Has(as, func(s string) bool { return s == "toolCallTasks[i].r=tuple.rps[index]" }) &&
 			c17Has(as, func(s string) bool { return s == "toolCallTasks[i].arg=toolCall.Function.Arguments" }) &&
-			c17Has(as, func(s string) bool { return s == "toolCallTasks[i].callID=toolCall.ID" })
+			c17Has(as, func(s string) bool { return s == "toolCallTasks[i].callID=toolCall.ID" }) &&
+			// one task per call, whatever its id: the list has n slots and the loop skips no call
+			c17Has(as, func(s string) bool { return s == "toolCallTasks:=make([]toolCallTask,n)" }) &&
+			!c17HasContinue(gen.Body) && !containsCall(gen.Body, "append")
 		out = append(out, boolFact("handlerConsulted", ok, file+": genToolCallTasks: if !ok { if tn.unknownToolHandler == nil { return nil, err }; toolCallTasks[i] = newUnknownToolTask(name, args, id, handler) }"))
-		out = append(out, boolFact("taskFromSameCall", same, file+": genToolCallTasks: task i gets rps[indexes[name of call i]], arguments and id of call i"))
+		out = append(out, boolFact("taskFromSameCall", same, file+": genToolCallTasks: toolCallTasks := make([]toolCallTask, n), no continue / append in the loop; task i gets rps[indexes[name of call i]], arguments and id of call i"))
 	}
 
 	// ---- executorRecovers ----
